@@ -160,6 +160,101 @@ def gen_and_replay(rep, cols, gencfg_kw, num, depth, seed, nkeys, nvals, inner_i
     return behs, results
 
 
+_dir_cache = {}
+_dir_regen = [False]   # thorough tier: always regenerate with TLC
+
+
+def directed_behaviours(kind="h", feat=("crash", "iofail", "restart"), genlen=20, maxcalls=4, want=None, limit=400,
+                        prefer=None):
+    """Directed generation: TLC breadth-first search over the stepping-granularity model with the history hidden by the
+    view prints one shortest behaviour for every abstract state that has just completed a recovery / restart after
+    hitting a coverage tag (Pdb.tla CovOf).  `want(behaviour) -> bool` filters."""
+    key = (kind, feat, genlen, maxcalls)
+    if key not in _dir_cache:
+        import gzip, hashlib
+        sha = hashlib.sha1()
+        for f in ("Pdb.tla", "MCPdb.tla"):
+            sha.update(open(os.path.join(vcore.SPEC, f), "rb").read())
+        sha.update(repr(key).encode())
+        digest = sha.hexdigest()
+        os.makedirs(os.path.join(vcore.SPEC, "directed"), exist_ok=True)
+        cache = os.path.join(vcore.SPEC, "directed", "DIR_%s_%s_%d_%d.json.gz" % (kind, "-".join(feat), genlen, maxcalls))
+        cached = None
+        if os.path.exists(cache) and os.environ.get("VERIF_TIER_FORCE_DIRECTED") != "1":
+            try:
+                with gzip.open(cache, "rt") as f:
+                    c = json.load(f)
+                if c.get("sha") == digest:
+                    cached = c
+            except Exception:
+                cached = None
+        if cached is not None and not _dir_regen[0]:
+            _dir_cache[key] = (cached["behs"], {"cfg": "DIR(cached)", "distinct": cached["distinct"], "generated": cached["generated"],
+                                                "depth": cached.get("depth", 0), "wall_s": 0, "cached": True})
+        else:
+            cfg = pdb_cfg(kind=kind, nkeys=2, nvals=2, maxcalls=maxcalls, maxops=1, maxcrash=1, fine=False, gen=True,
+                          genlen=genlen, feat=feat, spec="DirSpec", view="DirView", constraint="DirBound",
+                          invariants=("DirEmit",))
+            res = vcore.tlc_check("MCPdb.tla", write_cfg(cfg), timeout=1800)
+            behs, seen = [], set()
+            for line in res["out"].splitlines():
+                if line.startswith('"REPLAY '):
+                    s = json.loads(line)[7:]
+                    if s not in seen:
+                        seen.add(s)
+                        b = json.loads(s)
+                        if len(b) <= genlen:
+                            behs.append(b)
+            behs.sort(key=len)
+            res = dict(res)
+            res.pop("out", None)
+            _dir_cache[key] = (behs, res)
+            try:
+                with gzip.open(cache, "wt") as f:
+                    json.dump({"sha": digest, "behs": behs, "distinct": res["distinct"], "generated": res["generated"],
+                               "depth": res.get("depth", 0)}, f)
+            except Exception as e:
+                log("[directed] cannot write cache: %s" % e)
+    behs, res = _dir_cache[key]
+    out = [b for b in behs if want is None or want(b)]
+    if prefer is not None:
+        out.sort(key=lambda b: (not prefer(b), len(b)))
+    return out[:limit], res
+
+
+def replay_behaviours(rep, behs, cols, nkeys, nvals, seed, label, inner_images=0, small=True):
+    """Replay given behaviours (pdb-replay) and register violations."""
+    inp = os.path.join(vcore.scratch(), "beh_%s.ndjson" % label)
+    outp = os.path.join(vcore.scratch(), "res_%s.ndjson" % label)
+    vcore.write_ndjson(inp, behs)
+    args = {"in": inp, "out": outp, "cols": json.dumps(cols), "nkeys": nkeys, "nvals": nvals, "seed": seed}
+    if inner_images:
+        args["inner-images"] = inner_images
+    if small:
+        args["small"] = True
+    vcore.pdbh("pdb-replay", args)
+    results = vcore.read_ndjson(outp)
+    for r in results:
+        b = behs[r["i"]]
+        rep.behaviours += 1
+        rep.evaluations += 1
+        rep.nontrivial.add(vcore.beh_hash(b))
+        rep.extra["crash_images_opened"] = rep.extra.get("crash_images_opened", 0) + r.get("images", 0)
+        for v in r["violations"]:
+            if v["what"].startswith("harness:"):
+                raise ToolError("replay harness cannot follow the behaviour: %s (%s)" % (v["what"], label))
+            rep.violation("%s [directed, cols=%s, step %s %s]" % (v["what"], model_kinds(cols), v.get("step"), v.get("a")),
+                          {"kind": "pdb-replay", "cols": cols, "nkeys": nkeys, "nvals": nvals, "seed": seed,
+                           "index": r["i"], "inner_images": inner_images, "small": small, "behaviour": b},
+                          ctx=json.dumps(b[: v.get("step", len(b))]))
+    log("[directed] %s cols=%s: %d behaviours replayed" % (label, model_kinds(cols), len(results)))
+    return results
+
+
+def has_step(b, pred):
+    return any(pred(e) for e in b)
+
+
 def replay(prop, path):
     """Re-run a stored violating case."""
     with open(path) as f:
@@ -369,6 +464,7 @@ def crash_models(rep, thorough, prefix):
 
 @check("C02")
 def c02(tier):
+    _dir_regen[0] = (tier == "thorough")
     rep = Report("C02", tier)
     rep.rule = ("TLC: crash enabled in every state (mid-record apply, torn append, during recovery), <=2 crashes; "
                 "behaviours with crashes generated by TLC and replayed: a copy of the database directory is taken at the "
@@ -389,6 +485,14 @@ def c02(tier):
                        num, 34, SEED + 7 + i * 13, 2, 2, inner_images=40, small=(i % 2 == 1), label="c02_%d" % i)
     if rep.extra.get("crash_steps_with_recycled_file_inversion", 0) == 0:
         raise ToolError("no crash with a recycled log file generated: coverage too thin")
+    # directed: shortest behaviours that crash with a recycled log file / with three log files
+    dbehs, dres = directed_behaviours(want=lambda b: has_step(b, lambda e: e.get("a") == "Crash" and (e.get("inv") or e.get("nfiles", 0) >= 3)),
+                                      prefer=lambda b: has_step(b, lambda e: e.get("a") == "Crash" and e.get("inv")),
+                                      limit=300 if thorough else 60)
+    rep.add_model(dres, "DIR_Pdb(directed generation)")
+    rep.extra["directed_behaviours"] = len(dbehs)
+    for j, cols in enumerate(([{"kind": "hash"}], [{"kind": "btree"}]) if thorough else ([{"kind": "hash"}],)):
+        replay_behaviours(rep, dbehs, cols, 2, 2, SEED + 900 + j, "c02dir%d" % j, inner_images=30)
     ntr = 8 if thorough else 2
     for j in range(ntr):
         cols = CRASH_COLS[j % len(CRASH_COLS)]
@@ -399,6 +503,7 @@ def c02(tier):
 
 @check("C03")
 def c03(tier):
+    _dir_regen[0] = (tier == "thorough")
     rep = Report("C03", tier)
     rep.rule = ("TLC: clean close enabled in every reachable pipeline state, crash after every sync; behaviours ending in "
                 "close+reopen from every kind of pipeline state replayed (stepping mode) and threaded runs dropped "
@@ -414,6 +519,13 @@ def c03(tier):
         gen_and_replay(rep, cols, dict(feat=("restart", "crash"), maxops=3, maxcrash=2,
                                        invariants=("ReadLatest", "RecoveredIsPrefix", "SyncedSurvive", "DrainedIsAll")),
                        num, 30, SEED + 31 + i * 17, 2, 2, inner_images=0, small=True, label="c03_%d" % i)
+    # directed: clean close with >= 4 log files pending / with a recycled file, crash with 3 files
+    dbehs, dres = directed_behaviours(want=lambda b: has_step(b, lambda e: e.get("a") == "CloseOpen") or
+                                      has_step(b, lambda e: e.get("a") == "Crash" and e.get("nfiles", 0) >= 3),
+                                      limit=300 if thorough else 60)
+    rep.add_model(dres, "DIR_Pdb(directed generation)")
+    rep.extra["directed_behaviours"] = len(dbehs)
+    replay_behaviours(rep, dbehs, [{"kind": "hash", "uniform": True}], 2, 2, SEED + 910, "c03dir")
     ntr = 6 if thorough else 2
     for j in range(ntr):
         record_and_validate(rep, CRASH_COLS[j % 2], 10, 4, 500 if thorough else 250, SEED * 613 + j, crash=3,
@@ -660,6 +772,7 @@ def c13(tier):
 
 @check("C16")
 def c16(tier):
+    _dir_regen[0] = (tier == "thorough")
     rep = Report("C16", tier)
     rep.rule = ("TLC: an I/O failure can stop any pipeline step part-way (append with or without a torn record, enact after "
                 "any subset of the record's writes, sync/truncate), the handle enters the error state: reads keep "
@@ -692,6 +805,16 @@ def c16(tier):
     rep.extra["failure_steps_replayed"] = nfail
     if nfail == 0:
         raise ToolError("no failure step generated: vacuous")
+    # directed: a failing step while >= 2 logs (possibly a recycled, lower-numbered one holding newer records)
+    # await cleanup; the injection point is chosen systematically per behaviour
+    dbehs, dres = directed_behaviours(want=lambda b: has_step(b, lambda e: e.get("a") == "IoFailOther" and e.get("ncq", 0) >= 2),
+                                      prefer=lambda b: has_step(b, lambda e: e.get("a") == "IoFailOther" and e.get("ncq", 0) >= 2 and e.get("inv")),
+                                      limit=400 if thorough else 120)
+    rep.add_model(dres, "DIR_Pdb(directed generation)")
+    rep.extra["directed_behaviours"] = len(dbehs)
+    rep.extra["directed_with_recycled_cleanup_queue"] = sum(1 for b in dbehs if has_step(b, lambda e: e.get("a") == "IoFailOther" and e.get("ncq", 0) >= 2 and e.get("inv")))
+    for j in range(3 if thorough else 2):
+        replay_behaviours(rep, dbehs, [{"kind": "hash"}], 2, 2, SEED + 920 + j, "c16dir%d" % j)
     return rep.finish()
 
 
@@ -927,8 +1050,15 @@ def c15(tier):
         if r["ok"]:
             raise ToolError("Workers.tla without repair %s is deadlock-free: the model does not justify the scenario" % missing)
         log("[tlc] necessity: without %s -> %s after %d states" % (missing, r["violated"], r["distinct"]))
+    # all waiters must be woken when the queue drains below its limit
+    if thorough:
+        r = vcore.tlc_check("Workers.tla", write_cfg(workers_cfg(4, 1, 1, 1, 1, 0, False, allfix + ("one_wake",))), timeout=3000)
+        rep.add_model(r, "MC_Workers_one_wake")
+        if r["ok"]:
+            raise ToolError("Workers.tla with a single wake-up at the crossing is deadlock-free: vacuous")
+        log("[tlc] necessity: single wake-up at the crossing -> %s after %d states" % (r["violated"], r["distinct"]))
     # forced schedules on the real threads
-    for which in ("S1", "S2", "S7"):
+    for which in ("S1", "S2", "S7", "FULLQ"):
         outcome = None
         for attempt in range(3):
             p = vcore.pdbh("workers-scenario", {"which": which, "watchdog": 15}, timeout=400)
@@ -953,4 +1083,56 @@ def c15(tier):
     for pr in summary["problems"]:
         rep.violation("storm: " + pr, {"kind": "workers-live", "seed": SEED})
     rep.sample({"forced_schedules": rep.extra.get("forced_schedules"), "storm": summary})
+    return rep.finish()
+
+
+# ---------------------------------------------------------------------------
+# C19: index page search
+
+@check("C19")
+def c19(tier):
+    rep = Report("C19", tier)
+    rep.rule = ("TLC: both search functions transcribed at width N=8, block W=4; every page over an entry domain of 4 (5) "
+                "values (empty, equal compared bits with different dropped bits, zero compared bits), every key and start "
+                "position: the four clauses of C19 as invariants (exhaustive for the bounded domain); a 1% sample of the "
+                "cases with the specification's answers is embedded into real 64-slot pages (window at slot 0, 4, 28, 56; "
+                "index sizes 16, 17, 18, 20, 32, 40) and both private functions are called through the hook: they must "
+                "return exactly the specification's positions; non-trivial = start position > 0 or fast != scalar answer")
+    rep.assumptions = ["full-width behaviour is sampled through the embedding; exhaustiveness is at the model's width",
+                       "x86_64: the vectorised path is find_entry_sse2"]
+    vcore.build_harness()
+    thorough = tier == "thorough"
+    cfg = open(os.path.join(vcore.SPEC, "MC_PageSearch.cfg")).read()
+    if thorough:
+        cfg = cfg.replace("Dom <- Dom4", "Dom <- Dom5")
+    res = vcore.tlc_check("MCPageSearch.tla", write_cfg(cfg), timeout=3400, heap="14g")
+    rep.add_model(res, "MC_PageSearch")
+    rep.extra["exhaustive"] = True
+    if not res["ok"]:
+        rep.violation("TLC: %s violated in PageSearch.tla" % res["violated"],
+                      {"kind": "model", "cfg": "MC_PageSearch", "tlc_tail": res["out"][-5000:]})
+        return rep.finish()
+    cases = []
+    for line in res["out"].splitlines():
+        if line.startswith('"REPLAY '):
+            cases.append(json.loads(json.loads(line)[7:]))
+    if len(cases) < 1000:
+        raise ToolError("too few sampled cases (%d)" % len(cases))
+    log("[tlc] MC_PageSearch: %d cases checked, %d sampled for replay" % (res["distinct"], len(cases)))
+    inp = os.path.join(vcore.scratch(), "ps.ndjson")
+    outp = os.path.join(vcore.scratch(), "ps.res")
+    vcore.write_ndjson(inp, cases)
+    p = vcore.pdbh("pagesearch-replay", {"in": inp, "out": outp, "seed": SEED})
+    summary = json.loads(p.stdout.strip().splitlines()[-1])
+    rep.behaviours += len(cases)
+    rep.evaluations += summary["calls"]
+    for c in cases:
+        if c["p"] > 0 or c["fast"] != c["base"]:
+            rep.nontrivial.add(vcore.beh_hash(c))
+    rep.sample(cases[0])
+    rep.sample(cases[len(cases) // 2])
+    for r in vcore.read_ndjson(outp):
+        for v in r["violations"]:
+            rep.violation("%s: %s" % (v["a"], v["what"]), {"kind": "pagesearch", "case": cases[r["i"]], "seed": SEED})
+    log("[replay] %d sampled cases, %d real calls" % (len(cases), summary["calls"]))
     return rep.finish()
